@@ -517,7 +517,13 @@ archive_read_open1(struct archive *_a)
 	filter->name = "none";
 	filter->code = ARCHIVE_FILTER_NONE;
 	filter->can_skip = 1;
-	filter->can_seek = 1;
+	/*
+	 * Without a seek callback __archive_read_filter_seek() must fail
+	 * before it walks the data nodes: the walk switches to another node
+	 * (closing the current one and reopening the first), after which the
+	 * buffered data and the client no longer belong together.
+	 */
+	filter->can_seek = (a->client.seeker != NULL);
 
 	a->client.dataset[0].begin_position = 0;
 	if (!a->filter || !a->bypass_filter_bidding)
